@@ -2,6 +2,7 @@
 //!   c13 child MAX SRC     -> run SRC with the pool limited to MAX workers (0 = default), print one JSON line
 //!   c13 tie N             -> JSON lines: generated task trees x pool sizes, outcome of an isolated run,
 //!                            sequential value, the tree as a term of the Coq model (coq/Model/Pool.v)
+//!   c13 corpus            -> the former deadlock witnesses (nested pool) x pool sizes; violations
 //!   c13 search N          -> JSON lines: larger trees, wait-order and message-order checks; violations
 //!   c13 one MAX SRC [CAP_MS] -> run one program in a child with a cap (for replays / experiments)
 use std::io::Read;
@@ -392,6 +393,62 @@ fn message_program(r: &mut Rng) -> (String, String, String) {
     }
 }
 
+/// fixed regression corpus: the deadlock witnesses of the admission rule before d34a231
+/// (nested pool, directly and through a spawn), for every pool size
+fn corpus() {
+    let nc = cores();
+    let mut r = Rng::new(13);
+    let mut progs: Vec<(String, String, String)> = vec![("witness".into(), "wait pool(wait pool(+1)) 5".into(), "6".into())];
+    let mut fams: Vec<(String, Task)> = Vec::new();
+    for n in [1usize, 2, 3, 4, 8, nc, 2 * nc] {
+        fams.push((format!("nested-{n}"), nested_family(&mut r, n, true, false)));
+    }
+    for n in [1usize, 2, 4, nc] {
+        fams.push((format!("nested-via-spawn-{n}"), nested_family(&mut r, n, true, true)));
+    }
+    // three levels of pool
+    let deep = |r: &mut Rng, n: usize| {
+        let mut t = nested_family(r, n, true, false);
+        for k in t.kids.iter_mut() {
+            let leaf = k.kids.pop().unwrap();
+            k.kids.push(Task { pool: true, work: 2, c: 1, kids: vec![leaf], rev_wait: false });
+        }
+        t
+    };
+    for n in [1usize, 2, 4] {
+        fams.push((format!("nested3-{n}"), deep(&mut r, n)));
+    }
+    for (name, t) in fams {
+        progs.push((name, format!("{} 5", t.body(true)), format!("{}", t.value(5))));
+    }
+    let mut jobs = Vec::new();
+    let mut meta = Vec::new();
+    for (name, src, want) in &progs {
+        for m in pool_sizes() {
+            jobs.push((m, src.clone(), Duration::from_millis(2500)));
+            meta.push((name.clone(), src.clone(), want.clone(), m));
+        }
+    }
+    let outs = run_many(&jobs);
+    let mut bad = 0;
+    for (o, (name, src, want, m)) in outs.iter().zip(meta) {
+        if o.kind == "value" && o.text == want {
+            continue;
+        }
+        bad += 1;
+        let key = if o.kind == "timeout" { "pool-nested-saturation".to_string() } else { format!("corpus:{name}:{}", o.kind) };
+        println!(
+            "{{\"violation\":\"termination\",\"key\":{},\"name\":{},\"src\":{},\"max\":{},\"detail\":{}}}",
+            jstr(&key),
+            jstr(&name),
+            jstr(&src),
+            eff(m),
+            jstr(&format!("outcome {} {:?} after {} ms, sequential value {want}, {} pool workers", o.kind, o.text, o.ms, eff(m)))
+        );
+    }
+    println!("{{\"corpus\":{},\"runs\":{},\"bad\":{bad}}}", progs.len(), jobs.len());
+}
+
 fn search(n: usize, r: &mut Rng) {
     let nc = cores();
     let mut evals = 0usize;
@@ -498,8 +555,9 @@ fn main() {
             let o = run_child(a[2].parse().unwrap_or(0), &a[3], Duration::from_millis(cap));
             println!("{{\"outcome\":{},\"value\":{},\"ms\":{}}}", jstr(o.kind), jstr(&o.text), o.ms);
         }
+        "corpus" => corpus(),
         "tie" => tie(a.get(2).and_then(|s| s.parse().ok()).unwrap_or(20), &mut r),
         "search" => search(a.get(2).and_then(|s| s.parse().ok()).unwrap_or(20), &mut r),
-        _ => eprintln!("usage: c13 child MAX SRC | one MAX SRC [CAP_MS] | tie N | search N"),
+        _ => eprintln!("usage: c13 child MAX SRC | one MAX SRC [CAP_MS] | corpus | tie N | search N"),
     }
 }
